@@ -37,7 +37,7 @@ func RandomTraces(ctx *core.Ctx, n int) {
 		}
 		var cases []*core.ProgCase
 		for i := 0; i < k; i++ {
-			g := &core.ProgGen{R: r, MaxDepth: 1 + r.Intn(3)}
+			g := &core.ProgGen{R: r, MaxDepth: 1 + r.Intn(3), Rich: true}
 			p := g.Gen()
 			cs := &core.ProgCase{Family: "M3-random", Prog: p}
 			core.RunProgCase(cs, core.Style{Parens: r.Intn(2), Tight: r.Intn(3) == 0})
